@@ -53,6 +53,8 @@ class BlockMachine(Machine):
         self.bufs = {}
         self.mem = {}             # (region, idx) -> token
         self.heap = {}            # (object, 'next'|'prev') -> object: the links of uchain structures
+        self.objf = {}            # (object, field) -> value: fields of objects other than the pipe
+        self.fragment_reads = False   # read/write may map less than asked (segment boundary): explored both ways
         self.views = {}           # region -> (buf id, offset) for mapped windows
         self.track = set()        # regions whose octets must be written before they are read
         self.events = []          # ('output', uref id, tokens, attrs) | ('throw', name, ...) | ('log', name)
@@ -198,6 +200,8 @@ class BlockMachine(Machine):
             return SYM
         if rec == 'uchain' and field in ('next', 'prev'):
             return self.heap.get((obj, field), ('null',))
+        if (obj, field) in self.objf:
+            return self.objf[(obj, field)]
         if rec == self.pipe_rec:
             return self.f.get(field, SYM)
         return SYM
@@ -226,6 +230,9 @@ class BlockMachine(Machine):
             return
         if rec == 'uchain' and field in ('next', 'prev'):
             self.heap[(obj, field)] = v
+            return
+        if (obj, field) in self.objf:
+            self.objf[(obj, field)] = v
             return
         if rec == self.pipe_rec:
             self.f[field] = v
@@ -277,13 +284,18 @@ class BlockMachine(Machine):
         if name in ('__assert_fail', 'abort'):
             raise PathEnd()
         vals = [self.eval(fn, a, env, depth) for a in args]
-        r = self.api(fn, node, name, vals, env, depth)
+        r = self.extra_api(fn, node, name, vals)
+        if r is NotImplemented:
+            r = self.api(fn, node, name, vals, env, depth)
         if r is not NotImplemented:
             return r
         callee = self.prog.lookup(self.unit, name)
         if callee is not None and callee.blocks and self.may_inline(callee):
             return self.run(callee, vals, depth + 1)
         return SYM
+
+    def extra_api(self, fn, node, name, v):
+        return NotImplemented
 
     def may_inline(self, callee):
         f = callee.file or ''
@@ -453,6 +465,8 @@ class BlockMachine(Machine):
             n = self.norm(b, v[1], want if isinstance(want, int) else -1, node)
             if n is None or (n[1] == 0 and want != 0):
                 return self.err_invalid
+            if self.fragment_reads and n[1] > 1 and self.choose(2) == 1:
+                n = (n[0], 1)         # a segment boundary after one octet
             r = self.region(n[1], 'map')
             self.views[r] = (b.id, n[0])
             self.out_store(v[2], n[1], node)
